@@ -91,6 +91,26 @@ Definition take_snapshot (x : sfs) (s : state) (ls : Z) (fail : option nat) : sf
   | _ => (x', s, ls, r)
   end.
 
+(** [TakeSnapshot] while clients are served.  The state is copied at one instant (under the command lock): [s0] is
+    the store at that instant, and the number of changes counted so far is read just before.  The files are written
+    from the copy while commands go on; when the attempt ends the store is [s1].  On success the changes the copy
+    contains ([st_changes s0]) are discounted from the counter as it is then — the changes made meanwhile are not
+    in the snapshot and keep counting towards the next one.  With [s1 = s0] this is [take_snapshot]
+    ([SnapCount.take_snapshot_during_quiet]). *)
+Definition take_snapshot_during (x : sfs) (s0 s1 : state) (ls : Z) (fail : option nat) : sfs * state * Z * snap_result :=
+  let '(x', r) := run_plan x (take_snapshot_plan x s0 ls) fail in
+  match r with
+  | SnapOk => (x', s1 <| st_changes := st_changes s1 - st_changes s0 |>, st_now s0, SnapOk)
+  | _ => (x', s1, ls, r)
+  end.
+(** The code before the repair: the counter was set to zero at the end of the attempt. *)
+Definition take_snapshot_during_legacy (x : sfs) (s0 s1 : state) (ls : Z) (fail : option nat) : sfs * state * Z * snap_result :=
+  let '(x', r) := run_plan x (take_snapshot_plan x s0 ls) fail in
+  match r with
+  | SnapOk => (x', s1 <| st_changes := 0 |>, st_now s0, SnapOk)
+  | _ => (x', s1, ls, r)
+  end.
+
 (** [Restore], reading part: the manifest, then the state file it names.  [None]: an error is returned
     and nothing is loaded. *)
 Definition restore_read (x : sfs) : option snapobj :=
